@@ -6,7 +6,9 @@ package palias
 import (
 	"context"
 	"errors"
+	stdflag "flag"
 	"fmt"
+	"io"
 	"os"
 	"reflect"
 	"sort"
@@ -14,6 +16,7 @@ import (
 	"strings"
 	"testing"
 
+	"github.com/spf13/pflag"
 	"github.com/vimeo/dials"
 	"github.com/vimeo/dials/common"
 	dcue "github.com/vimeo/dials/decoders/cue"
@@ -25,6 +28,8 @@ import (
 	dflag "github.com/vimeo/dials/sources/flag"
 	dpflag "github.com/vimeo/dials/sources/pflag"
 	"github.com/vimeo/dials/sourcewrap"
+	"github.com/vimeo/dials/tagformat"
+	"github.com/vimeo/dials/tagformat/caseconversion"
 	"github.com/vimeo/dials/transform"
 	"pgregory.net/rapid"
 
@@ -50,6 +55,16 @@ type Case struct {
 	// the decoder is wrapped with the alias mangler alone and string sets are
 	// written in the format's native map spelling.
 	NoSetSlice bool `json:"no_set_slice,omitempty"`
+	// InnerRecase (decoder checks only): "" or "lower_snake" / "upper_snake" /
+	// "kebab".  When set, the decoder handed to the alias wrapper is itself a
+	// sourcewrap.NewTransformingDecoder with a tag-reformatting mangler
+	// (DecodeGoTags -> that casing), so every key of the file, primary or
+	// alias, is the re-cased join of the words of its tag / field name.
+	InnerRecase string `json:"inner_recase,omitempty"`
+	// SetLiteral (flag and pflag checks only): the Set is declared as a struct
+	// literal (&Set{Flags: fs, ParseFunc: ...}) that registers its flags on
+	// the first Value() call, instead of being built by NewSetWithArgs.
+	SetLiteral bool `json:"set_literal,omitempty"`
 	// More (decoder checks only) lists further decodes made, in order, through
 	// the SAME alias-wrapped decoder value as the first one: each has its own
 	// config type, supplied leaves and elements (its NoSetSlice / More are
@@ -193,6 +208,16 @@ func (d *decorator) decorate(fs []shape.Field, aliasedAbove int) {
 		}
 		if aliased {
 			tags = append(tags, fmt.Sprintf(`dialsalias:%q`, d.freshTag()))
+		}
+		if dv, ok := reflect.StructTag(strings.Join(tags, " ")).Lookup("dials"); ok && !d.src.flatten {
+			// hand-written tags of the file decoders next to the dials tag,
+			// naming the field exactly as the dials tag does
+			switch r := rapid.IntRange(0, 99).Draw(d.t, "decoder_tags"); {
+			case r < 15:
+				tags = append(tags, fmt.Sprintf(`json:%q`, dv), fmt.Sprintf(`yaml:%q`, dv), fmt.Sprintf(`toml:%q`, dv))
+			case r < 25:
+				tags = append(tags, fmt.Sprintf(`json:%q`, dv+",omitempty"), fmt.Sprintf(`yaml:%q`, dv+",omitempty"), fmt.Sprintf(`toml:%q`, dv+",omitempty"))
+			}
 		}
 		if f.Kind == "leaf" && !underAliased {
 			kinds := []string{d.src.spTag}
@@ -502,8 +527,12 @@ func genCase(src srcKind) func(*rapid.T) Case {
 	step := genStep(src)
 	return func(t *rapid.T) Case {
 		c := step(t)
+		if src.name == "flag" || src.name == "pflag" {
+			c.SetLiteral = rapid.Bool().Draw(t, "set_literal")
+		}
 		if !src.flatten {
 			c.NoSetSlice = rapid.Bool().Draw(t, "no_set_slice")
+			c.InnerRecase = rapid.SampledFrom([]string{"", "", "", "lower_snake", "upper_snake", "kebab"}).Draw(t, "inner_recase")
 			// decoder value reuse: up to two more config types through the
 			// same wrapped decoder value
 			for n := rapid.SampledFrom([]int{0, 0, 1, 1, 2}).Draw(t, "more_decodes"); n > 0; n-- {
@@ -549,13 +578,37 @@ func ezWrap(d dials.Decoder, noSetSlice bool) dials.Decoder {
 	return sourcewrap.NewTransformingDecoder(d, manglers...)
 }
 
+// runOpts are the per-case options of the source / decoder construction.
+type runOpts struct {
+	noSetSlice bool
+	recase     string
+	setLiteral bool
+}
+
+// recaseEncoders maps the InnerRecase names to the library's encoders.
+var recaseEncoders = map[string]caseconversion.EncodeCasingFunc{
+	"lower_snake": caseconversion.EncodeLowerSnakeCase,
+	"upper_snake": caseconversion.EncodeUpperSnakeCase,
+	"kebab":       caseconversion.EncodeKebabCase,
+}
+
+// recasingDecoder wraps a decoder the way a user would to read files in
+// another key convention: a transforming decoder with a tag-reformatting
+// mangler.  The result is what gets handed to the alias wrapper.
+func recasingDecoder(d dials.Decoder, recase string) dials.Decoder {
+	if recase == "" {
+		return d
+	}
+	return sourcewrap.NewTransformingDecoder(d, tagformat.NewTagReformattingMangler(common.DialsTagName, caseconversion.DecodeGoTags, recaseEncoders[recase]))
+}
+
 type supplied struct {
 	x   xleaf
 	val reflect.Value
 	doc string // pre-rendered document spelling (slice-of-struct leaves)
 }
 
-func execute(src srcKind, T, pt reflect.Type, sup []supplied, noSetSlice bool, shared dials.Decoder) (val reflect.Value, err error, panicked any) {
+func execute(src srcKind, T, pt reflect.Type, sup []supplied, opt runOpts, shared dials.Decoder) (val reflect.Value, err error, panicked any) {
 	defer func() {
 		if r := recover(); r != nil {
 			panicked = r
@@ -592,6 +645,14 @@ func execute(src srcKind, T, pt reflect.Type, sup []supplied, noSetSlice bool, s
 		for _, s := range sup {
 			args = append(args, "-"+s.x.name+"="+textOf(s.val))
 		}
+		if opt.setLiteral {
+			// the lazily registering form the package's own tests use
+			fs := stdflag.NewFlagSet("", stdflag.ContinueOnError)
+			fs.SetOutput(io.Discard)
+			set := &dflag.Set{Flags: fs, ParseFunc: func() error { return fs.Parse(args) }}
+			val, err = set.Value(ctx, typ)
+			return val, err, nil
+		}
 		set, serr := dflag.NewSetWithArgs(dflag.DefaultFlagNameConfig(), reflect.New(T).Interface(), args)
 		if serr != nil {
 			return reflect.Value{}, fmt.Errorf("NewSetWithArgs: %w", serr), nil
@@ -602,6 +663,13 @@ func execute(src srcKind, T, pt reflect.Type, sup []supplied, noSetSlice bool, s
 		args := make([]string, 0, len(sup))
 		for _, s := range sup {
 			args = append(args, "--"+s.x.name+"="+textOf(s.val))
+		}
+		if opt.setLiteral {
+			fs := pflag.NewFlagSet("", pflag.ContinueOnError)
+			fs.SetOutput(io.Discard)
+			set := &dpflag.Set{Flags: fs, ParseFunc: func() error { return fs.Parse(args) }}
+			val, err = set.Value(ctx, typ)
+			return val, err, nil
 		}
 		set, serr := dpflag.NewSetWithArgs(dpflag.DefaultFlagNameConfig(), reflect.New(T).Interface(), args)
 		if serr != nil {
@@ -616,7 +684,7 @@ func execute(src srcKind, T, pt reflect.Type, sup []supplied, noSetSlice bool, s
 			root.put(s.x.docPath, s.doc)
 			continue
 		}
-		root.put(s.x.docPath, docValue(s.val, src.name == "toml", noSetSlice))
+		root.put(s.x.docPath, docValue(s.val, src.name == "toml", opt.noSetSlice))
 	}
 	var doc string
 	var dec dials.Decoder
@@ -636,7 +704,7 @@ func execute(src srcKind, T, pt reflect.Type, sup []supplied, noSetSlice bool, s
 	}
 	wrapped := shared
 	if wrapped == nil {
-		wrapped = ezWrap(dec, noSetSlice)
+		wrapped = ezWrap(recasingDecoder(dec, opt.recase), opt.noSetSlice)
 	}
 	val, err = wrapped.Decode(strings.NewReader(doc), typ)
 	if err != nil {
@@ -710,20 +778,31 @@ func innerDecoder(name string) dials.Decoder {
 func runCase(src srcKind) func(Case) vrt.Verdict {
 	judge := judgeStep(src)
 	return func(c Case) vrt.Verdict {
+		opt := runOpts{noSetSlice: c.NoSetSlice, recase: c.InnerRecase, setLiteral: c.SetLiteral}
+		if _, ok := recaseEncoders[opt.recase]; opt.recase != "" && !ok {
+			return vrt.Discardf("unknown inner recase")
+		}
 		if src.flatten {
-			if len(c.More) > 0 {
-				return vrt.Discardf("decoder reuse in a flatten source")
+			if len(c.More) > 0 || opt.recase != "" || opt.noSetSlice || (opt.setLiteral && src.name == "env") {
+				return vrt.Discardf("decoder option in a flatten source")
 			}
-			return judge(c, c.NoSetSlice, nil)
+			v := judge(c, opt, nil)
+			if v.Status == vrt.StatusOK && src.name != "env" {
+				v.Labels = append(v.Labels, fmt.Sprintf("set-struct-literal:%v", opt.setLiteral))
+			}
+			return v
+		}
+		if opt.setLiteral {
+			return vrt.Discardf("flag option in a decoder check")
 		}
 		// one alias-wrapped decoder value for every decode of the case
-		shared := ezWrap(innerDecoder(src.name), c.NoSetSlice)
-		v := judge(c, c.NoSetSlice, shared)
+		shared := ezWrap(recasingDecoder(innerDecoder(src.name), opt.recase), opt.noSetSlice)
+		v := judge(c, opt, shared)
 		if v.Status != vrt.StatusOK {
 			return v
 		}
 		for i, step := range c.More {
-			sv := judge(step, c.NoSetSlice, shared)
+			sv := judge(step, opt, shared)
 			switch sv.Status {
 			case vrt.StatusViolation:
 				sv.Msg = fmt.Sprintf("decode #%d of %d through one alias-wrapped decoder value (a different config type each time): %s", i+2, len(c.More)+1, sv.Msg)
@@ -735,6 +814,11 @@ func runCase(src srcKind) func(Case) vrt.Verdict {
 			v.Labels = append(v.Labels, sv.Labels...)
 		}
 		v.Labels = append(v.Labels, fmt.Sprintf("decodes-through-one-decoder-value:%d", len(c.More)+1))
+		rc := opt.recase
+		if rc == "" {
+			rc = "none"
+		}
+		v.Labels = append(v.Labels, "inner-recasing-decoder:"+rc)
 		seen := map[string]bool{}
 		uniq := v.Labels[:0]
 		for _, l := range v.Labels {
@@ -748,9 +832,9 @@ func runCase(src srcKind) func(Case) vrt.Verdict {
 	}
 }
 
-func judgeStep(src srcKind) func(Case, bool, dials.Decoder) vrt.Verdict {
-	return func(c Case, noSetSlice bool, shared dials.Decoder) vrt.Verdict {
-		c.NoSetSlice = noSetSlice
+func judgeStep(src srcKind) func(Case, runOpts, dials.Decoder) vrt.Verdict {
+	return func(c Case, opt runOpts, shared dials.Decoder) vrt.Verdict {
+		c.NoSetSlice = opt.noSetSlice
 		T, err := c.Shape.Build()
 		if err != nil {
 			return vrt.Discardf("shape does not build")
@@ -759,6 +843,7 @@ func judgeStep(src srcKind) func(Case, bool, dials.Decoder) vrt.Verdict {
 		if err != nil {
 			return vrt.Discardf("shape outside the grammar")
 		}
+		m.keyEnc, m.recaseAll = opt.recase, opt.recase != ""
 		xs := m.expand()
 		byKey := map[string]xleaf{}
 		names := map[string]string{}
@@ -815,7 +900,7 @@ func judgeStep(src srcKind) func(Case, bool, dials.Decoder) vrt.Verdict {
 		}
 
 		pt := ptrify.Pointerify(T, reflect.New(T).Elem())
-		got, gerr, panicked := execute(src, T, pt, sup, c.NoSetSlice, shared)
+		got, gerr, panicked := execute(src, T, pt, sup, opt, shared)
 
 		describe := func() string {
 			var parts []string
@@ -977,7 +1062,10 @@ func rule(src string) string {
 	return "config struct types from the shape grammar restricted to leaf types every alias-capable source reads (scalars of all integer widths, floats, bool, string, duration, []string, []int, map[string]string, string set), nested struct / pointer-struct fields to depth 3, <=4 fields per struct, and embedded (anonymous) structs, by value or by pointer, in the root struct and in nested structs: the embedded types are four named Go types of the test package (reflect cannot mint named types) with aliased leaves of scalar / slice / map type, an untagged aliased leaf, an aliased struct below the embedded one, and (EmbSrc, at most once per type and never below an aliased field) leaves carrying the source-specific primary / alias tags of all three flatten sources; the embedded field itself is untagged (3/4) or has a dials tag, and is aliased with probability 3/10; " +
 		"for the decoder checks the leaf grammar also has []ElemItem, a slice of structs whose element fields carry alias tags (aliased string, []string, struct, pointer-struct and untagged float fields, an aliased leaf below the struct fields): a supplied slice has 0..3 elements (1..3 in TOML, which cannot spell an empty array of tables), each element with its own neither / primary / alias / both pattern per aliased element field and non-zero values (elements are not pointerified, so inside an element the zero value is 'not supplied'); env, flag and pflag cannot spell slices of structs and do not get them; " +
 		"each field (leaf or struct-typed, any depth) independently gets an explicit dials tag (single word / camelCase / snake_case / kebab-case, globally unique words) or stays untagged, and a dialsalias tag with probability 1/2 (leaves) or 2/5 (struct-typed fields; at most two aliased structs on one path and no further aliases once the type has ~100 expanded names, because every aliased struct doubles the names below it); leaves not below an aliased struct may also get the source's own primary and/or alias tag (dialsenv[alias], dialsflag[alias], dialspflag[alias]; for decoders the tags of all three are noise); the combination 'source-specific primary + dialsalias, no source-specific alias' is allowed in one case in six; tag order is shuffled; Go field names are extended where needed so that flattened name concatenations stay unique. " +
+		"In the decoder checks a quarter of the fields that have a dials tag (aliased or not, leaf or struct-typed, any depth) also carry hand-written json / yaml / toml tags with the same name (plain, or with the option ',omitempty'): the decoder goes by that tag for the original field, the alias copy must not inherit it. " +
 		"Per aliased field one of neither / primary only / alias only / both (half of the cases exclude 'both'); an aliased struct-typed field duplicates its subtree, 'supplied under a name' = at least one leaf of that copy supplied; other leaves set or unset at random; one scalar value in five is the zero value of its type and one collection value in four is an explicitly empty non-nil collection (NAME=\"\", -name=, [] / {}), which must count as set exactly like any other value (nil vs empty is compared exactly). " +
+		"In the flag and pflag checks the Set is built by NewSetWithArgs or (1/2) declared as a struct literal &Set{Flags: fs, ParseFunc: ...} that registers lazily on the first Value(). " +
+		"In the decoder checks the decoder below the alias wrapper is the plain format decoder or (1/2) itself a sourcewrap.NewTransformingDecoder with a tag-reformatting mangler (DecodeGoTags -> lower_snake | UPPER_SNAKE | kebab); the keys of the document, primary and alias alike, are then the re-cased join of the words of the tag / field name / embedded type name (as read off the unmodified tree: the alias copy is re-cased exactly like the original). " +
 		"In the decoder checks one alias-wrapped decoder value is built per case and used for 1..3 decodes in a row (1: 2/5, 2: 2/5, 3: 1/5), each with a different generated config type, its own supplied leaves and its own document, each judged on its own by the same oracle (a wrapper must not carry anything from one config type to the next). " +
 		"Executed against " + src + " with names known by construction (env: PREFIX + UPPER_SNAKE join of words; flags: '-' join of tags / field words; decoders: tag path, documents rendered by the harness; an untagged embedded struct contributes no name element in the flatten sources, JSON and Cue (promotion), the lower-cased type name in YAML and the type name in TOML; with a dials tag it is an ordinary named field; its alias copy is always a named field). " +
 		"Oracle: some field supplied under both names => an error that names such a field: its innermost cause quotes the Go field name and the visible error text carries that quoted name too (not merely the parenthesised names of enclosing fields that the outer layers add), whatever the nesting depth of the field; otherwise no error and the returned value equals the model leaf by leaf (value under either name lands, neither => nil, nothing else set). " +
@@ -988,7 +1076,7 @@ var assumptions = []string{
 	"Value/Decode is called with dials.NewType(ptrify.Pointerify(T, zero T)), as dials.Config does",
 	"decoders are wrapped exactly as ez does without a FileFieldNameEncoder: sourcewrap.NewTransformingDecoder(dec, transform.NewAliasMangler(\"dials\") [, &transform.SetSliceMangler{} unless DisableAutoSetToSlice, drawn per case]); with the set<->slice mangler a string set is written as a list, without it as a map of empty maps (accepted by all four formats on the unmodified tree)",
 	"the env source is used with Prefix " + envPrefix + " so generated names cannot meet real environment variables; touched variables are restored after every case",
-	"flag sources get explicit FlagSets via NewSetWithArgs (never flag.CommandLine / os.Args) and a zero-valued template",
+	"flag sources get explicit FlagSets (never flag.CommandLine / os.Args): NewSetWithArgs with a zero-valued template, or a Set struct literal with Flags and ParseFunc (the lazily registering form the packages' own tests use; FlagSet output discarded)",
 	"source-specific tags are generated only on leaf fields that are not below an aliased struct field: their names are absolute, so below an aliased struct both copies would share one name and 'which name was used' is undefined",
 	"untagged fields are addressed by the documented default of each format (Go field name for JSON/Cue/TOML, lower-cased field name for YAML)",
 	"untagged embedded structs: promoted by the flatten manglers and by encoding/json (Cue follows it); yaml.v2 does not inline without a yaml tag option and go-toml v1 does not promote a pointer-typed embedded field, so both address it by its type name (lower-cased for YAML); each checked on the unmodified tree",
